@@ -113,7 +113,7 @@ def build(reg):
 
 TARGETS = [f"{AST}.add_error", f"{LS}._create_ref_link", "fortls.parsers.internal.diagnostics.Diagnostic.build"]
 
-HANDLERS = ["serve_hover", "serve_definition", "serve_implementation", "serve_references", "serve_rename",
+HANDLERS = ["_get_keyword_argument", "serve_hover", "serve_definition", "serve_implementation", "serve_references", "serve_rename",
             "serve_signature", "serve_codeActions", "get_definition", "_create_ref_link", "serve_autocomplete",
             "_nesting_depth"]
 NESTED = ["serve_autocomplete.get_candidates", "serve_autocomplete.get_candidates.child_candidates",
@@ -151,6 +151,8 @@ def safety_items(repo):
     sigs = {
         "self.workspace.get": {"FortranFile", NONE},
         "self.get_definition": DEFN,
+        # an element of the callee's arg_objs (filled by resolve_arg_link with children of the procedure) or None
+        "self._get_keyword_argument": DEFN,
         "find_in_scope": DEFN,
         "climb_type_tree": scopes | {NONE},
         "file_obj.ast.get_inner_scope": scopes | {NONE},
